@@ -4,10 +4,10 @@ from hc_oracles import crash_oracle
 
 PROP = "C03"
 COQ_FILE = "props/C03.v"
-THEOREMS = ['C03_read_total', 'C03_acknowledge_total', 'C03_rate_step_total', 'C03_receiver_indices_in_range', 'C03_half_connection_total', 'C03_client_total', 'C03_flush_terminates', 'C03_frame_never_panics', 'C03_reachable_invariant', 'C03_endpoint_configs_ok', 'C03_ack_group_total', 'C03_advance_window_total', 'C03_forget_frames_total']
+THEOREMS = ['C03_read_total', 'C03_acknowledge_total', 'C03_rate_step_total', 'C03_receiver_indices_in_range', 'C03_half_connection_total', 'C03_client_total', 'C03_server_total', 'C03_flush_terminates', 'C03_frame_never_panics', 'C03_reachable_invariant', 'C03_endpoint_configs_ok', 'C03_ack_group_total', 'C03_advance_window_total', 'C03_forget_frames_total']
 USES_FLOATS = True
 NEEDS_RELEASE = True
-ASSUMPTIONS = ['proved for all inputs: reader totality, acknowledge() totality, rate step totality, receiver index bounds; and for the HalfConnection as a whole (C03_half_connection_total): in every state reachable by any sequence of send/receive/step/flush/frame operations (configurations as Client/Server build them) every such operation returns normally — no panic site reached, every loop ends within its fuel (invariant over frame log / transfer window / reorder buffer / send window / rate controller / loss intervals; flush terminates by a potential argument): proofs/ReorderProofs.v, FrameQueueProofs.v, HcTotal.v, HcFlushTotal.v, HcStepTotal.v', 'NOT proved: the Client/Server composition around the half-connection (event heap, address table) (partial); decided by hostile/pair/tx/rate/lifecycle streams in debug AND release builds with a hang watchdog, every modelled panic site explicit in the model']
+ASSUMPTIONS = ['proved for all inputs and histories: every panic site and every loop of the model is unreachable / bounded — frame reader, HalfConnection (C03_half_connection_total: send/receive/step/flush/any frame from any reachable state), Client (C03_client_total) and Server (C03_server_total) for every history of steps with any byte datagrams from any addresses, any clock values, any nonces, and any application calls (proofs/ReorderProofs.v, FrameQueueProofs.v, HcTotal.v, HcFlushTotal.v, HcStepTotal.v, HeapCount.v, EndpointTotal.v)', 'outside the model: arithmetic-overflow checks of debug builds where the model computes in unbounded N/Z (wrapping/saturating operations are explicit), allocation failure, socket calls; and the agreement of model and code, which is decided by the hostile/pair/tx/rate/lifecycle/forge streams in debug AND release builds with a hang watchdog']
 THEOREM_STATEMENTS = []
 
 
